@@ -21,7 +21,7 @@ TRANSLATION TABLE (Python → Lean)
   a and b / a or b / not a              (a && b) / (a || b) / (!a)                operands Bool; in a test position
                                         truthiness: Int → (x != 0), list → (!x.isEmpty), Option → x.isSome
   a if c else b                         (if c then a else b)
-  (a, b) / [a, b]                       (a, b) / [a, b]
+  (a, b) / [a, b]                       (a, b) / [a, b]     `()`, `(a,)` and a tuple literal that is iterated: lists
   t[k], k literal, t a fixed tuple      t.1 / t.2.1 / …                          other subscripts: only registry `keyed`
   self.attr / param.attr                self.attr / param.attr                   (record fields given by the registry)
   len(x) abs(x) range(a[,b]) zip(a,b)   (x.length : Int)  (Py.abs x)  (Py.range a b)  (List.zip a b)
@@ -220,8 +220,8 @@ class Translator:
 
     def e_Tuple(self, e, env):
         parts = [self.expr(x, env) for x in e.elts]
-        if len(parts) < 2:
-            self.bad(e, "tuple of fewer than two elements")
+        if len(parts) < 2:                       # `()` / `(x,)`: a variable-length tuple, i.e. a list
+            return "[" + ", ".join(p[0] for p in parts) + "]", ("L", parts[0][1] if parts else None)
         return "(" + ", ".join(p[0] for p in parts) + ")", ("T", *[p[1] for p in parts])
 
     def e_List(self, e, env):
@@ -252,7 +252,7 @@ class Translator:
         if isinstance(e.op, ast.Add) and ta and tb and ta[0] == "L" and tb[0] == "L":
             return f"({a} ++ {b})", (ta if ta[1] is not None else tb)
         if isinstance(e.op, ast.Mult) and ta and ta[0] == "L" and tb == "Int":
-            if isinstance(e.left, ast.List) and len(e.left.elts) == 1:
+            if isinstance(e.left, (ast.List, ast.Tuple)) and len(e.left.elts) == 1:
                 return f"(List.replicate {b}.toNat {self.expr(e.left.elts[0], env)[0]})", ta
         self.bad(e, f"operator {type(e.op).__name__} on {ta}, {tb}")
 
@@ -321,7 +321,7 @@ class Translator:
         g = gens[0]
         if g.is_async:
             self.bad(node, "async comprehension")
-        it, ity = self.expr(g.iter, env)
+        it, ity = self.iterable(g.iter, env)
         if not ity or ity[0] != "L":
             self.bad(g.iter, f"iteration over a value of type {ity}")
         env2 = dict(env)
@@ -345,6 +345,12 @@ class Translator:
 
     e_GeneratorExp = e_ListComp
 
+    def iterable(self, e, env):
+        """an expression in an iteration position: a tuple literal is iterated like a list literal"""
+        if isinstance(e, ast.Tuple):
+            e = ast.copy_location(ast.List(elts=e.elts, ctx=ast.Load()), e)
+        return self.expr(e, env)
+
     def e_Call(self, e, env):
         f = _dotted(e.func)
         args = e.args
@@ -360,7 +366,7 @@ class Translator:
         if f in ("all", "any") and len(args) == 1 and isinstance(args[0], ast.GeneratorExp) and not kw:
             return self.comprehension(args[0].elt, args[0].generators, env, e, kind=f)
         if f in ("product", "itertools.product") and len(args) == 1 and set(kw) == {"repeat"}:
-            (xs, tx), (n, tn) = self.expr(args[0], env), self.expr(kw["repeat"], env)
+            (xs, tx), (n, tn) = self.iterable(args[0], env), self.expr(kw["repeat"], env)
             if tx and tx[0] == "L" and tn == "Int":
                 return f"(Py.productRepeat {xs} {n}.toNat)", ("L", tx)
         if kw:
@@ -476,7 +482,10 @@ class Translator:
         if isinstance(s, ast.AnnAssign):
             if s.value is None:
                 return k(env)
+            ann = self.annotation(s.annotation)
             s = ast.copy_location(ast.Assign(targets=[s.target], value=s.value), s)
+            if ann is not None and isinstance(s.targets[0], ast.Name):
+                return self.s_Assign(s, env, k, ann)
         if isinstance(s, ast.AugAssign):
             s = ast.copy_location(ast.Assign(targets=[s.target], value=ast.copy_location(
                 ast.BinOp(left=self.as_load(s.target), op=s.op, right=s.value), s)), s)
@@ -504,7 +513,22 @@ class Translator:
             return False
         return True if isinstance(ty, str) else all(Translator.closed(x) for x in ty[1:])
 
-    def s_Assign(self, s, env, k):
+    def annotation(self, a):
+        """type of a local's annotation: int, bool, list[X], tuple[X, ...], tuple[A, B]; anything else: None (inferred)"""
+        if isinstance(a, ast.Name):
+            return {"int": "Int", "bool": "Bool"}.get(a.id)
+        if isinstance(a, ast.Subscript) and isinstance(a.value, ast.Name):
+            args = a.slice.elts if isinstance(a.slice, ast.Tuple) else [a.slice]
+            if a.value.id == "tuple" and len(args) == 2 and isinstance(args[1], ast.Constant) and args[1].value is Ellipsis:
+                args, kind = args[:1], "L"
+            else:
+                kind = {"list": "L", "tuple": "T"}.get(a.value.id)
+            ts = [self.annotation(x) for x in args]
+            if kind and all(t is not None for t in ts) and (kind == "T" and len(ts) >= 2 or kind == "L" and len(ts) == 1):
+                return (kind, *ts)
+        return None
+
+    def s_Assign(self, s, env, k, ann=None):
         if len(s.targets) != 1:
             self.bad(s, "chained assignment")
         tg = s.targets[0]
@@ -524,6 +548,8 @@ class Translator:
             env["#set:" + tg.id] = True
             return self.let(self.v(tg.id), "[]") + k(env)
         t, ty = self.expr(s.value, env)
+        if ann is not None and not self.closed(ty):
+            ty = ann                       # e.g. `xs: list[int] = []`
         pat = self.pattern(tg, ty, env)
         return self.let(pat, t, ty, annotate=isinstance(tg, ast.Name)) + k(env)
 
@@ -596,7 +622,7 @@ class Translator:
             self.bad(s, "return / raise inside a for loop")
         if any(isinstance(n, ast.Break) for n in ast.walk(s)):
             self.bad(s, "break")
-        it, ity = self.expr(s.iter, env)
+        it, ity = self.iterable(s.iter, env)
         if not ity or ity[0] != "L":
             self.bad(s.iter, f"iteration over a value of type {ity}")
         targets = self.assigned([ast.Assign(targets=[s.target], value=None)])
@@ -678,6 +704,8 @@ def render_group(namespace, header, recs, items, imports=("MesaModel.Base.PyPrim
         for f, t in r.fields.items():
             L.append(f"  {f} : {lean_ty(t)}")
         L.append("deriving Repr, DecidableEq")
+        fs = [f"r.{f}" for f in r.fields]
+        L.append(f"instance : Py.Show {r.name} := ⟨fun r => Py.Show.show_ " + (fs[0] if len(fs) == 1 else "(" + ", ".join(fs) + ")") + "⟩")
         L.append("")
     for fn, info, sig, lines in items:
         if info is not None and not sig.startswith("--"):
